@@ -82,7 +82,7 @@ def align_shape(*polys: PolyLike) -> Tuple[ndpoly, ...]:
     # return tuple(numpoly.broadcast_arrays(*polys))
     polys_ = [numpoly.aspolynomial(poly) for poly in polys]
     common = numpy.ones(
-        numpy.broadcast_shapes(*[poly.shape for poly in polys_]), dtype=int
+        numpy.broadcast_shapes(*[poly.shape for poly in polys_]), dtype=bool
     )
 
     for idx, poly in enumerate(polys_):
